@@ -152,6 +152,8 @@ class Judge:
             cls = ",".join(sorted(storecmp.classes(aspects)))
             if rq["target"] == "kvgraph" and want["errLow"] > 0:
                 cls = "an invalid element discards valid elements of the same stream"
+            elif rq["target"] == "streambatch" and any(e["k"] == "e" and e["g"] == "g1" and (e["r"].get("from") == "" or e["r"].get("to") == "") for e in rq["stream"]):
+                cls = "an edge without endpoints reaches the sink and fails its whole batch"
             elif rq["target"].startswith("server") and consumers(rq["stream"], POLICY_VISIBLE[rq.get("pol", "all")]) >= 2:
                 cls = "elements lost, misplaced or applied out of order when the stream switches graphs"
             ctx.diverge("bulk %s: %s" % (tgt, cls),
@@ -212,12 +214,13 @@ def run(ctx):
     jobs = {
         "states": dict(module="BulkStates", cfg="BulkStates.cfg"),
         "gen": dict(module="BulkLoad", cfg="BulkLoad_quick.cfg"),
-        "sim": dict(module="BulkLoad", cfg="BulkLoad_sim.cfg", simulate="num=%d" % (40 if quick else 700), depth=6, workers=1),
-        "sim4": dict(module="BulkLoad", cfg="BulkLoad_sim4.cfg", simulate="num=%d" % (20 if quick else 700), depth=5, workers=1),
+        "sim": dict(module="BulkLoad", cfg="BulkLoad_sim.cfg", simulate="num=%d" % (40 if quick else 300), depth=6, workers=1),
+        "sim4": dict(module="BulkLoad", cfg="BulkLoad_sim4.cfg", simulate="num=%d" % (20 if quick else 200), depth=5, workers=1),
         "scaled": dict(module="BulkLoad", cfg="BulkLoad_scaled.cfg", simulate="num=%d" % (2 if quick else 12), depth=4, workers=1),
         "waits": dict(module="BulkImpl", cfg="BulkImpl_waits.cfg" if quick else "BulkImpl_waits4.cfg"),
         "pinned": dict(module="BulkImpl", cfg="BulkImpl_pinned_a.cfg" if quick else "BulkImpl_pinned_full.cfg"),
         "pinned_m": dict(module="BulkImpl", cfg="BulkImpl_pinned_m.cfg"),
+        "pinned_refines": dict(module="BulkImpl", cfg="BulkImpl_pinned_refines.cfg", expect_violation=True),
         "sbatch": dict(module="StreamBatchImpl", cfg="StreamBatchImpl_quick.cfg" if quick else "StreamBatchImpl.cfg"),
         "shared": dict(module="StreamBatchImpl", cfg="StreamBatchImpl_shared.cfg", expect_violation=True),
         "edit": dict(module="EditRequests", cfg="EditRequests.cfg"),
@@ -263,6 +266,8 @@ def run(ctx):
             minimal[k] = p
     ctx.notes.append(dict(model_predictions_for_the_pinned_loop={k: dict(count=v, minimal=[[e["g"], e["k"], e["r"].get("id", "")] for e in minimal[k]["stream"]],
                                                                          policy=minimal[k]["pol"], schedule=minimal[k]["sched"]) for k, v in pred_kinds.items()},
+                          pinned_loop_refinement="TLC: Refines %s on the pinned-loop model (shortest counterexample = a single element naming a missing graph)" %
+                                                 ("violated" if res["pinned_refines"].violation else "holds"),
                           streambatch_shared_accumulator="TLC: NoLostError %s on the model with read/write appends (a lead for C17, no verdict here)" %
                                                          ("violated" if res["shared"].violation else "holds")))
     if not streams:
